@@ -35,6 +35,12 @@ var c16defects = []c16defect{
 	{"ms-decorator", "services", func(c *Cfg) {
 		c.Decorators = append(c.Decorators, Decorator{Tag: "tg", Decorator: "DecB", Args: []any{"@lostThree"}})
 	}, `"lostThree"`},
+	{"mp-value-field", "params", func(c *Cfg) {
+		c.Services = append(c.Services, Service{Name: "svmOne", Value: P("Thing{}"), Fields: []KV{{"F", "x%goneValue%"}}})
+	}, `"goneValue"`},
+	{"ms-value-call", "services", func(c *Cfg) {
+		c.Services = append(c.Services, Service{Name: "svsOne", Type: P("Thing"), Calls: []Call{{Method: "Set", Args: []any{1, "@lostValue"}}}})
+	}, `"lostValue"`},
 	{"param-cycle", "cycle", func(c *Cfg) {
 		c.Params = append(c.Params, Param{"pcOne", "%pcTwo%"}, Param{"pcTwo", "x%pcOne%"})
 	}, "%pcOne%"},
@@ -101,7 +107,7 @@ func init() {
 	Register(&Check{
 		ID:    "C16",
 		Level: "exploration",
-		Rule: "all subsets of size <= k (k=5 quick, all subsets thorough) of 13 injected defects {malformed references made of name characters (compile stage), missing param x3 positions, missing service x3 positions, param cycle, service cycle, scope violation, scope violation on a service that also has missing dependencies, grammar violation} x the 4 combinations of --ignore-missing-params / --ignore-missing-services, each with and without --stub, with --quiet / -q, and in twelve flag spellings; eight sparse configurations (whole sections absent); " +
+		Rule: "all subsets of size <= k (k=5 quick, all subsets thorough) of 15 injected defects {missing parameter in a field of a value service, missing service in a call of a type-only service, malformed references made of name characters (compile stage), missing param x3 positions, missing service x3 positions, param cycle, service cycle, scope violation, scope violation on a service that also has missing dependencies, grammar violation} x the 4 combinations of --ignore-missing-params / --ignore-missing-services, each with and without --stub, with --quiet / -q, and in twelve flag spellings; eight sparse configurations (whole sections absent); " +
 			"non-trivial = at least one defect and at least one flag set; distinct = distinct (defect set, flags)",
 		Assumptions: []string{
 			"diagnostic classes are told apart by the rule prefix the tool prints; lines are compared as ordered lists between flag combinations",
